@@ -162,11 +162,12 @@ func (st *State) intrinsic(g *G, fr *Frame, name string, fn *ssa.Function, args 
 	case "SetTimers":
 		st.timersOn = args[0].(*Term).IsTrue()
 		return nil, false
-	case "RunSpawned":
+	case "RunSpawned", "RunSpawnedExcept":
 		match := constStr(args[0])
+		except := base == "RunSpawnedExcept"
 		var kids []int
 		for _, o := range st.gs {
-			if o.Status == "parked" && strings.Contains(o.Name, match) {
+			if o.Status == "parked" && strings.Contains(o.Name, match) != except {
 				o.Status = "runnable"
 				kids = append(kids, o.ID)
 			}
